@@ -265,6 +265,7 @@ class Tally:
     def __init__(self):
         self.count = {}
         self.fail = {}
+        self.seen = {}
 
     def check(self, clause, ok, **info):
         self.count[clause] = self.count.get(clause, 0) + 1
@@ -273,7 +274,11 @@ class Tally:
         elif not ok:
             self.fail[clause]['more_failures'] = int(self.fail[clause].get('more_failures', 0)) + 1
 
+    def observe(self, what, n):
+        self.seen[what] = self.seen.get(what, 0) + int(n)
+
     def emit(self, w):
+        if self.seen: w.note(observations=self.seen)
         for clause in sorted(self.count):
             f = self.fail.get(clause)
             w.ensure(clause, f is None, runs=self.count[clause], **(f or {}))
@@ -291,13 +296,14 @@ def run_from_units(spec, perm, tally, canary=None):
     cyclic = is_cyclic(spec)
     info = {'perm': list(perm)}
     try:
-        with warnings.catch_warnings():
-            warnings.simplefilter('ignore')
+        with warnings.catch_warnings(record=True) as caught:
+            warnings.simplefilter('always')
             net = nw.Network.from_units(given)
     except Exception as e:
         tally.check('no-unexpected-exception', False, exception=f'{type(e).__name__}: {e}', **info)
         return None
     tally.check('no-unexpected-exception', True)
+    warned = any('could not be determined' in str(c.message) for c in caught)
     flat = flatten(net)
     info['network'] = show(net, index)
     recycles = net.get_all_recycles()
@@ -305,22 +311,30 @@ def run_from_units(spec, perm, tally, canary=None):
     tally.check('path contains exactly the given units',
                 set(map(id, flat)) == set(given_ids) and all(u in index for u in flat), **info)
     tally.check('Network.units is the set of given units', set(map(id, net.units)) == set(given_ids), **info)
-    pos = {}
+    pos = {}; last = {}
     for p, u in enumerate(flat):
-        pos.setdefault(u, p)
-    against = [e for e in spec['edges'] if units[e[0]] in pos and units[e[2]] in pos and pos[units[e[0]]] >= pos[units[e[2]]]]
+        pos.setdefault(u, p); last[u] = p
+    # a stream a -> b runs against the path order when (some listing of) b does not come after (some listing of) a;
+    # units are listed once in the acyclic case, where this is simply pos[a] >= pos[b]
+    against = [e for e in spec['edges'] if units[e[0]] in pos and units[e[2]] in pos and last[units[e[0]]] >= pos[units[e[2]]]]
     if not cyclic:
         tally.check('acyclic: every unit appears exactly once', len(flat) == len(units) and len(set(map(id, flat))) == len(flat), **info)
         tally.check('acyclic: every unit comes after all units that feed it', not against and len(pos) == len(units),
                     against=against, **info)
         tally.check('acyclic: no recycle stream is reported', not recycles and not any_recycle_attribute(net),
                     reported=len(recycles), **info)
+        # auxiliary (not a sentence of C19, but an order "after all units that feed it" presupposes it): sort did not give up
+        tally.check('acyclic (auxiliary): no "network path could not be determined" warning', not warned, **info)
     else:
         tally.check('cyclic: at least one recycle stream is reported', len(recycles) >= 1, **info)
         lps = loops(net)
         bad = [e for e in against if not any(units[e[0]] in L and units[e[2]] in L for L in lps)]
         tally.check('cyclic: every stream against the path order connects two units of a common recycle loop',
                     not bad and len(pos) == len(units), not_in_a_loop=bad, **info)
+        # observations outside the statement (C19 does not constrain them when there are cycles); counted, never failed
+        tally.observe('cyclic runs', 1)
+        tally.observe('cyclic runs in which a unit is listed more than once', len(flat) != len(set(map(id, flat))))
+        tally.observe('cyclic runs with the warning "network path could not be determined"', warned)
     # ---- frame
     tally.check('frame: flowsheet connections unchanged', connections(units) == before, **info)
     tally.check('frame: the given unit list is unchanged', [id(u) for u in given] == given_ids, **info)
@@ -466,11 +480,21 @@ def add_back_edges(spec, backs, where):
 def cyclic_exhaustive_configs(tier):
     """Every connected DAG (2..nmax units, up to isomorphism) with every single back-edge, every pair (quick: n <= 3,
     thorough: n <= 4) and seeded triples."""
-    nmax = 4
+    nmax = 4 if tier == 'quick' else 5
     rng = random.Random(SEED * 15485863 + 3)
     out = []
     for n in range(2, nmax + 1):
         for gi, edges in enumerate(connected_dags(n)):
+            if n == 5:      # thorough only: every single back-edge, two port layouts, 12 unit orders
+                for var in ('asc', 'xlast'):
+                    base = make_spec(n, edges, var)
+                    if base is None: continue
+                    for c in back_edge_candidates(base):
+                        spec = add_back_edges(base, (c,), 'last')
+                        if spec is None: continue
+                        out.append({'name': f'n={n};dag={gi};ports={var};back={c[0]}>{c[1]};last', 'spec': spec,
+                                    'perms': some_perms(n, 10, rng)})
+                continue
             for var in (('asc', 'xlast') if tier == 'quick' else VARIANTS):
                 base = make_spec(n, edges, var)
                 if base is None: continue
@@ -542,9 +566,10 @@ def from_units_dag_random(w, cfg):
 
 @group('C19/from_units_cyclic_exhaustive', configs=cyclic_exhaustive_configs, functions=FROM_UNITS, mode='B',
        notes='every connected DAG with 2-4 units (up to isomorphism; 2 port layouts quick / 4 thorough) + every single '
-             'back-edge j->i (i upstream of j), every pair of back-edges (quick: <= 3 units + 3 seeded pairs for 4 units), '
-             'seeded triples; new port first/last; only flowsheets in which every unit still reaches a product; every '
-             'permutation of the unit list')
+             'added stream j->i that closes a cycle (i upstream of j), every pair of them (quick: <= 3 units + 3 seeded pairs '
+             'for 4 units), seeded triples; new port first/last, feeds are never used up; only flowsheets in which every unit '
+             'still reaches a product; every permutation of the unit list; thorough: also 5 units + every single added stream, '
+             '2 port layouts, identity/reverse/10 seeded unit orders')
 def from_units_cyclic_exhaustive(w, cfg):
     check_flowsheet(w, cfg)
 
@@ -797,8 +822,9 @@ def reachability(w, cfg):
                                 {units.index(x) for x in down} == exp_d, unit=k, got=sorted(units.index(x) for x in down), expected=sorted(exp_d), **info)
                     tally.check('get_upstream_units = units that reach it through >= 1 stream not in ends',
                                 {units.index(x) for x in up} == exp_u, unit=k, got=sorted(units.index(x) for x in up), expected=sorted(exp_u), **info)
-                    wrong[1] += 1
-                    if {units.index(x) for x in down} != exp_d | {k}: wrong[0] += 1
+                    if k not in exp_d:          # vacuity guard: the wrong claim "a unit is downstream of itself" must be rejected here
+                        wrong[1] += 1
+                        if {units.index(x) for x in down} != exp_d | {k}: wrong[0] += 1
                     # seeded with the (closed) result of another unit: the union of both closures, same set object
                     for k2, u2 in enumerate(units):
                         seed = u2.get_downstream_units(ends=ends, universal=universal)
@@ -818,8 +844,9 @@ def reachability(w, cfg):
             tally.check('frame: flowsheet connections unchanged', connections(units) == before, **info)
             tally.check('frame: ends unchanged', ends == ends_before, **info)
     tally.emit(w)
-    w.ensure('canary refuted: "the unit itself is always downstream of itself" is rejected', wrong[0] > 0 or all(
-        k in _reach({u: {b for a, b in edges if a == u} for u in range(n)})[k] for k in range(n)))
+    if wrong[1]:
+        w.ensure('canary refuted: "a unit is always downstream of itself" is rejected for every unit that is not on a cycle',
+                 wrong[0] == wrong[1])
     w.canary('canary: the unit itself is always in its downstream set', wrong[0] == 0)
     w.note(spec=spec)
 
